@@ -57,12 +57,12 @@ LT = "Bounded symbolic model checking of the real router fast path (scionPacketP
 
 specs = {
  "C01": spec("C01", ["c01"], "VerifC01Scion", "VerifC01Twin", ["forwarded", "forwarded-xover", "scmp-bad-mac", "scmp-expired"],
-             [A3, cls(2, 2, 0, ingress=1), cls(2, 2, 0, ingress=3)], T, cls(3, 0, 0, ingress=1), level_text=LT,
+             [cls(3, 0, 0, ingress=1), cls(3, 0, 0, ingress=0), cls(2, 2, 0, ingress=1)], T + [cls(2, 2, 0, ingress=3)], cls(3, 0, 0, ingress=1), level_text=LT,
              extra_assume=["the accumulator used for the MAC of the current hop is the packet's SegID after the ingress update of scion-header.rst (against construction direction, packet received on an external link, not a peering hop); for the first hop after a cross-over it is the SegID of the new segment as received"],
              extra_notcov=["EPIC path type is covered by C13's harness, not here", "the SCMP message bytes (C09); here the slow-path request (type, code, pointer) is checked"]),
- "C05": spec("C05", ["c05"], "VerifC05", "VerifC05Twin", ["fwd-external", "fwd-internal", "fwd-transit-out", "delivered", "scmp-invalid-src", "scmp-invalid-dst"], Q, T, cls(3, 0, 0, ingress=1), level_text=LT),
- "C06": spec("C06", ["c06"], "VerifC06", "VerifC06Twin", ["forwarded-out", "forwarded-segment-change", "forwarded-within-segment", "forwarded-from-inside", "scmp-invalid-path", "scmp-invalid-segment-change"], [A3, cls(2, 2, 0, ingress=1), cls(2, 2, 0, ingress=0)], T, cls(2, 2, 0, ingress=1), level_text=LT),
- "C07": spec("C07", ["c07"], "VerifC07", "VerifC07Twin", ["forwarded"], Q, T, cls(3, 0, 0, ingress=1), level_text=LT, rsv0=1,
+ "C05": spec("C05", ["c05"], "VerifC05", "VerifC05Twin", ["fwd-external", "fwd-internal", "fwd-transit-out", "delivered", "scmp-invalid-src", "scmp-invalid-dst"], [A3, cls(2, 2, 0, ingress=0), cls(2, 2, 0, ingress=3)], T, cls(3, 0, 0, ingress=1), level_text=LT),
+ "C06": spec("C06", ["c06"], "VerifC06", "VerifC06Twin", ["forwarded-out", "forwarded-segment-change", "forwarded-within-segment", "forwarded-from-inside", "scmp-invalid-path", "scmp-invalid-segment-change"], [cls(3, 0, 0, ingress=1), cls(3, 0, 0, ingress=0), cls(2, 2, 0, ingress=1)], T + [cls(2, 2, 0, ingress=0)], cls(2, 2, 0, ingress=1), level_text=LT),
+ "C07": spec("C07", ["c07"], "VerifC07", "VerifC07Twin", ["forwarded"], [cls(3, 0, 0, ingress=1), cls(3, 0, 0, ingress=3), cls(2, 2, 0, ingress=1)], T, cls(3, 0, 0, ingress=1), level_text=LT, rsv0=1,
              extra_assume=["reserved bits of the path meta header, info fields and hop fields are zero, as a conforming sender sets them (the router re-serialises these fields from their decoded form)"],
              extra_notcov=["one-hop path completion is checked by C12's clause only-second-hop-and-segid-change"]),
 }
